@@ -30,7 +30,7 @@ use crate::config::Config;
 use crate::drivers::CopyDriver;
 use crate::errors::{Result, XcpError};
 use crate::feedback::{StatusUpdate, StatusUpdater};
-use crate::operations::{CopyHandle, Operation, tree_walker};
+use crate::operations::{CopyHandle, Operation, entry_exists, tree_walker};
 
 // ********************************************************************** //
 
@@ -120,13 +120,14 @@ fn copy_worker(work: cbc::Receiver<Operation>, config: &Arc<Config>, updates: Ar
 
             Operation::Special(from, to) => {
                 info!("Worker[{:?}]: Special file {:?} -> {:?}", thread::current().id(), from, to);
-                if to.exists() {
+                // lstat: a dangling symbolic link is an entry too.
+                if entry_exists(&to)? {
                     if config.no_clobber {
                         return Err(XcpError::DestinationExists("Destination file exists and --no-clobber is set.", to).into());
                     }
                     // The entry may be the source itself under another
                     // spelling; removing it would delete the source.
-                    if is_same_file(&from, &to)? {
+                    if to.exists() && is_same_file(&from, &to)? {
                         return Err(XcpError::InvalidDestination("Source and destination are the same file.").into());
                     }
                     remove_file(&to)?;
